@@ -75,6 +75,10 @@ def regress_jobs(pid, scratch):
     return out
 
 
+# what the judged traces contained (event kind -> lines), for the evidence: a trace spec whose actions were never exercised proves nothing
+TRACE_EVENTS = {}
+
+
 def judge_traces(scratch, jobs, results):
     """code -> spec: the lines recorded by mode 'trace' replays are judged by TLC against spec/WalletTrace.tla
     (same universe module and constants as the generator that produced the history).  A trace that TLC cannot
@@ -105,6 +109,9 @@ def judge_traces(scratch, jobs, results):
             r = results[i]
             lines = r.pop('lines')
             r['trace_lines'] = len(lines)
+            for ln in lines:
+                k = ln.get('ev', '?') + (('/' + ln['role']) if ln.get('role') else '') + (('/' + ln['op']) if ln.get('op') and ln.get('op') != 'none' else '')
+                TRACE_EVENTS[k] = TRACE_EVENTS.get(k, 0) + 1
             states += t.get('distinct') or 0
             if acc:
                 judged += 1
@@ -414,7 +421,7 @@ def follower_check(pid, tier, scratch, replay, plan):
     cov = dict(states=max(states, 1), transitions=max(transitions, 1), traces_validated_against_impl=len(jobs) - len(infra),
                samples=samples, quiescent_points_compared=compared, distinct_histories=distinct_acts,
                regression_histories=n_regress, model_runs=mc_runs, generator_runs=gen_runs,
-               free_running_traces_judged_by_tlc=tj, trace_judge_states=tst,
+               free_running_traces_judged_by_tlc=tj, trace_judge_states=tst, trace_lines_by_event=dict(sorted(TRACE_EVENTS.items())),
                trace_spec='spec/WalletTrace.tla: every chain action, scheduling point and database commit of a free-running replay is consumed by TLC; each commit line carries synced chain, status records, rescan cursors, mined balances and pending set read through the committing transaction',
                replays_failed_for_infrastructure=len(infra), died_once_but_not_when_rerun_alone=flaky, behaviours_with_only_other_properties_diffs=other,
                known_finding_hits={k: len(v) for k, v in known_hits.items()},
@@ -677,7 +684,15 @@ KINDS['C07'] += ['restore-failed', 'restore-other-wallet', 'restore-foreign-addr
 PROPS['C07'] = plan_check(PLAN_C07)
 PROPS['C08'] = plan_check(PLAN_C08)
 # announcements racing with a wallet import (F-C09-2 was found here): without removals the model's pending set is exact
-PLAN_C09['gens'].append(gen('Gen_Pay.cfg', 'MC_Pay.tla', mode='trace', trace_pend=True, filter=free_runnable,
+def import_race_history(h):
+    """announcements racing with the import of w2, pending set compared at every commit: only transactions whose inputs all
+    belong to wallets that exist from the start - a pending transaction that spends a coin of a wallet imported LATER was
+    indexed when that coin was a stranger's, so a conflict on it stays invisible (the pattern of K-C09-2; the model's purge
+    rule looks at the owners at purge time and is not exact there)"""
+    return free_runnable(h) and not any(s['a'] == 'Announce' and s['t'] in ('p2', 'p4', 'p5') for s in h)
+
+
+PLAN_C09['gens'].append(gen('Gen_Pay.cfg', 'MC_Pay.tla', mode='trace', trace_pend=True, filter=import_race_history,
                             quick=[SIM(60, 16, **dict(IMPORT_ONLY, **P))],
                             thorough=[SIM(750, 18, **dict(IMPORT_ONLY, **P))]))
 # crashes during background import / removal belong to C06 as well
